@@ -30,14 +30,19 @@ structure Cfg where
   sleepRounds : Bool        -- ts_delta: `round(delta * 1000)` (false: truncation)
   hasReaderChecks : Bool    -- janet_channel_has_reader (select's "give can complete now" test) looks for a LIVE reader only
   timeoutAfterValidation : Bool  -- stream cfuns call janet_addtimeout only after every argument check, directly before waiting
+  didResumeFirst : Bool     -- vm.c janet_continue_no_check: janet_fiber_did_resume(fiber) precedes the `if (fiber->child)` block
+                            --   (false: it runs only once the child chain has handed control back to this fiber)
+  procErrCheck : Bool       -- janet_proc_wait_cb: the janet_cancel branch (non-zero status, :x flag) is guarded by the generation test too
+  resumeBumps : Bool        -- loop1 run phase: `task.fiber->sched_id++` between the stale filter and janet_continue_signal, so that
+                            --   whatever the fiber registered before this resume (e.g. after cancelling itself) is stale afterwards
   deriving DecidableEq, Repr
 
 def Cfg.allChecked (c : Cfg) : Bool :=
   c.runFilter && c.timerCheck && c.pushSkipsStale && c.popSkipsStale && c.closeChecks && c.procCheck &&
   c.deadlineChecks && c.didResumeDetaches && c.scheduleBumps && c.canceledGuard && c.sleepRounds &&
-  c.hasReaderChecks && c.timeoutAfterValidation
+  c.hasReaderChecks && c.timeoutAfterValidation && c.didResumeFirst && c.procErrCheck && c.resumeBumps
 
-def Cfg.full : Cfg := ⟨true, true, true, true, true, true, true, true, true, true, true, true, true⟩
+def Cfg.full : Cfg := ⟨true, true, true, true, true, true, true, true, true, true, true, true, true, true, true, true⟩
 
 inductive Val where
   | nil
@@ -64,6 +69,7 @@ structure Task where
   regGen : Nat := 0       -- ghost
   notBefore : Nat := 0    -- ghost
   src : Src := .spawn     -- ghost
+  regEpoch : Nat := 0     -- ghost: epoch (number of earlier resumes) of the fiber when the originating registration / request was made
   deriving DecidableEq, Repr, Inhabited
 
 structure Fiber where
@@ -71,12 +77,17 @@ structure Fiber where
   canceled : Bool := false
   dead : Bool := false                       -- ¬ janet_fiber_can_resume
   listener : Option (Nat × Bool) := none     -- ev_stream / ev_callback : (stream, isRead)
+  depth : Nat := 0                           -- number of child fibers (try / defer / coro / with-deadline bodies) of this root fiber
+                                             --   that stay suspended across its waits: `fiber->child` chain below the root
+  epoch : Nat := 0                           -- ghost: how many times this fiber has been resumed by the loop so far
+  listenEpoch : Nat := 0                     -- ghost: `epoch` at the moment the listener was attached
   deriving DecidableEq, Repr, Inhabited
 
 structure Pending where
   fiber : Nat
   schedId : Nat
   choice : Bool
+  epoch : Nat := 0        -- ghost: the fiber's epoch when it registered
   deriving DecidableEq, Repr, Inhabited
 
 structure Chan where
@@ -98,6 +109,7 @@ structure Timer where
   kind : TKind
   start : Nat := 0     -- ghost: tick at which the timer was created
   durUs : Nat := 0     -- ghost: requested duration in microseconds
+  epoch : Nat := 0     -- ghost: the fiber's epoch when the timer was created
   deriving DecidableEq, Repr, Inhabited
 
 structure Stream where
@@ -110,6 +122,7 @@ structure Event where     -- one executed run-queue task
   fiber : Nat
   schedIdAtRun : Nat
   task : Task
+  epochAtRun : Nat := 0   -- ghost: number of resumes of this fiber before this one
   deriving DecidableEq, Repr, Inhabited
 
 structure World where
@@ -118,6 +131,8 @@ structure World where
   chans : Nat → Chan := fun _ => {}
   streams : Nat → Stream := fun _ => {}
   procs : Nat → Option (Nat × Nat) := fun _ => none     -- proc k is waited on by (fiber, sched_id)
+  procX : Nat → Bool := fun _ => false                  -- proc k was spawned with :x (JANET_PROC_ERROR_NONZERO)
+  procEpoch : Nat → Nat := fun _ => 0                   -- ghost: epoch of the waiting fiber when it called os/proc-wait
   bodies : Nat → Bool := fun _ => false                 -- body b (a with-deadline coroutine) is resumable
   bodyDead : Nat → Bool := fun _ => false               -- ghost: body b has finished (dead / error status)
   timers : List Timer := []                             -- kept sorted by `when` (stable): abstraction of the heap
@@ -135,17 +150,18 @@ def live (w : World) (f g : Nat) : Bool := (w.fibers f).schedId == g
 def nextSid (cfg : Cfg) (sid : Nat) (isErr : Bool) : Nat :=
   if cfg.scheduleBumps then sid + 1 else (if isErr then sid else sid + 1)
 
-def schedule (cfg : Cfg) (w : World) (f : Nat) (v : Val) (isErr : Bool) (regGen nb : Nat) (src : Src) : World :=
+def schedule (cfg : Cfg) (w : World) (f : Nat) (v : Val) (isErr : Bool) (regGen nb : Nat) (src : Src)
+    (regEpoch : Nat) : World :=
   if cfg.canceledGuard && (w.fibers f).canceled then w
   else
     { w with fibers := set w.fibers f { w.fibers f with schedId := nextSid cfg (w.fibers f).schedId isErr,
                                                         canceled := (w.fibers f).canceled || isErr },
              queue := w.queue ++ [{ fiber := f, value := v, isErr := isErr, expected := nextSid cfg (w.fibers f).schedId isErr,
-                                    regGen := regGen, notBefore := nb, src := src }] }
+                                    regGen := regGen, notBefore := nb, src := src, regEpoch := regEpoch }] }
 
 /-- janet_cancel: applies to whatever the fiber currently waits for. -/
 def cancel (cfg : Cfg) (w : World) (f : Nat) (v : Val) : World :=
-  schedule cfg w f v true (w.fibers f).schedId w.now .cancel
+  schedule cfg w f v true (w.fibers f).schedId w.now .cancel (w.fibers f).epoch
 
 /-- the `do … while (!is_empty && stale)` loop: first live entry (or, without the check, simply the first entry) -/
 def popLive (check : Bool) (w : World) : List Pending → Option Pending × List Pending
@@ -157,11 +173,11 @@ def chanPush (cfg : Cfg) (w : World) (f c : Nat) (x : Val) (choice : Bool) : Wor
   match popLive cfg.pushSkipsStale w (w.chans c).rp with
   | (none, _) =>
       if ((w.chans c).items ++ [x]).length > (w.chans c).limit then
-        ({ w with chans := set w.chans c { (w.chans c) with items := (w.chans c).items ++ [x], rp := [], wp := (w.chans c).wp ++ [{ fiber := f, schedId := (w.fibers f).schedId, choice := choice }] } }, true)
+        ({ w with chans := set w.chans c { (w.chans c) with items := (w.chans c).items ++ [x], rp := [], wp := (w.chans c).wp ++ [{ fiber := f, schedId := (w.fibers f).schedId, choice := choice, epoch := (w.fibers f).epoch }] } }, true)
       else ({ w with chans := set w.chans c { (w.chans c) with items := (w.chans c).items ++ [x], rp := [] } }, false)
   | (some r, rest) =>
       (schedule cfg { w with chans := set w.chans c { (w.chans c) with rp := rest } } r.fiber
-        (match x with | .kw n => (if r.choice then Val.takeR c n else x) | _ => x) false r.schedId w.now (.chanRead c), false)
+        (match x with | .kw n => (if r.choice then Val.takeR c n else x) | _ => x) false r.schedId w.now (.chanRead c) r.epoch, false)
 
 /-- janet_channel_has_reader -/
 def hasReader (cfg : Cfg) (w : World) (c : Nat) : Bool :=
@@ -177,18 +193,18 @@ def chanPopWake (cfg : Cfg) (w : World) (c : Nat) (items : List Val) : World :=
   | (none, _) => { w with chans := set w.chans c { (w.chans c) with items := items, wp := [] } }
   | (some wr, rest) =>
       schedule cfg { w with chans := set w.chans c { (w.chans c) with items := items, wp := rest } } wr.fiber
-        (if wr.choice then .giveR c else .chan c) false wr.schedId w.now (.chanWrite c)
+        (if wr.choice then .giveR c else .chan c) false wr.schedId w.now (.chanWrite c) wr.epoch
 
 /-- janet_channel_pop_with_lock for fiber `f` on an open channel.  Returns (world, item?) ; none = registered as reader. -/
 def chanPop (cfg : Cfg) (w : World) (f c : Nat) (choice : Bool) : World × Option Val :=
   match (w.chans c).items with
-  | [] => ({ w with chans := set w.chans c { (w.chans c) with rp := (w.chans c).rp ++ [{ fiber := f, schedId := (w.fibers f).schedId, choice := choice }] } }, none)
+  | [] => ({ w with chans := set w.chans c { (w.chans c) with rp := (w.chans c).rp ++ [{ fiber := f, schedId := (w.fibers f).schedId, choice := choice, epoch := (w.fibers f).epoch }] } }, none)
   | it :: items => (chanPopWake cfg w c items, some it)
 
 /-- one pending entry handled by cfun_channel_close -/
 def closeOne (cfg : Cfg) (c : Nat) (w : World) (e : Pending) : World :=
   if !(w.fibers e.fiber).dead && (!cfg.closeChecks || live w e.fiber e.schedId) then
-    schedule cfg w e.fiber (if e.choice then .closeR c else .nil) false e.schedId w.now (.chanClose c)
+    schedule cfg w e.fiber (if e.choice then .closeR c else .nil) false e.schedId w.now (.chanClose c) e.epoch
   else w
 
 def chanClose (cfg : Cfg) (w : World) (c : Nat) : World :=
@@ -207,7 +223,7 @@ def insertTimer (t : Timer) : List Timer → List Timer
 /-- janet_sleep_await / janet_addtimeout / cfun_ev_deadline: the timer records the CURRENT generation of `f`. -/
 def addTimer (cfg : Cfg) (w : World) (f : Nat) (kind : TKind) (durUs : Nat) : World :=
   let t : Timer := { when := w.now + deltaMs cfg durUs, fiber := f, schedId := (w.fibers f).schedId, kind := kind,
-                     start := w.now, durUs := durUs }
+                     start := w.now, durUs := durUs, epoch := (w.fibers f).epoch }
   { w with timers := insertTimer t w.timers }
 
 /-- body of the `while (peek_timeout(&to) && to.when <= now)` loop for one popped timer -/
@@ -215,12 +231,12 @@ def fireTimer (cfg : Cfg) (w : World) (to : Timer) : World :=
   match to.kind with
   | .deadline b =>
       if !cfg.deadlineChecks || w.bodies b then
-        schedule cfg w to.fiber (.err 1) true (w.fibers to.fiber).schedId to.when .deadline
+        schedule cfg w to.fiber (.err 1) true (w.fibers to.fiber).schedId to.when .deadline (w.fibers to.fiber).epoch
       else w
   | .timeout =>
-      if !cfg.timerCheck || live w to.fiber to.schedId then schedule cfg w to.fiber (.err 0) true to.schedId to.when .timeout else w
+      if !cfg.timerCheck || live w to.fiber to.schedId then schedule cfg w to.fiber (.err 0) true to.schedId to.when .timeout to.epoch else w
   | .sleep =>
-      if !cfg.timerCheck || live w to.fiber to.schedId then schedule cfg w to.fiber .nil false to.schedId to.when (.sleep to.start to.durUs) else w
+      if !cfg.timerCheck || live w to.fiber to.schedId then schedule cfg w to.fiber .nil false to.schedId to.when (.sleep to.start to.durUs) to.epoch else w
 
 def timerPhase (cfg : Cfg) (w : World) : Nat → World
   | 0 => w
@@ -243,7 +259,7 @@ def asyncEnd (w : World) (f : Nat) : World :=
 def asyncStart (w : World) (f s : Nat) (isRead : Bool) : World :=
   let st := w.streams s
   let st := if isRead then { st with readFiber := some f } else { st with writeFiber := some f }
-  { w with streams := set w.streams s st, fibers := set w.fibers f { w.fibers f with listener := some (s, isRead) } }
+  { w with streams := set w.streams s st, fibers := set w.fibers f { w.fibers f with listener := some (s, isRead), listenEpoch := (w.fibers f).epoch } }
 
 /-- the kernel reports readiness on stream `s` and the callback of the registered fiber completes with value `v`
     (`rf && rf->ev_callback`: the stream must point at a fiber that still listens on this stream) -/
@@ -255,18 +271,28 @@ def streamEvent (cfg : Cfg) (w : World) (s : Nat) (isRead : Bool) (v : Val) (isE
       match (w.fibers f).listener with
       | none => w
       | some (s', _) =>
-          if s' = s then asyncEnd (schedule cfg w f v isErr (w.fibers f).schedId w.now (.stream s)) f else w
+          if s' = s then asyncEnd (schedule cfg w f v isErr (w.fibers f).schedId w.now (.stream s) (w.fibers f).listenEpoch) f else w
 
 /-- os_proc_wait_impl: remember (fiber, sched_id) in the threaded call -/
-def procWait (w : World) (f k : Nat) : World := { w with procs := set w.procs k (some (f, (w.fibers f).schedId)) }
+def procWait (w : World) (f k : Nat) : World :=
+  { w with procs := set w.procs k (some (f, (w.fibers f).schedId)), procEpoch := set w.procEpoch k (w.fibers f).epoch }
 
-/-- janet_proc_wait_cb -/
+/-- the error janet_proc_wait_cb raises for a non-zero exit status of a process spawned with :x -/
+def procErrVal (status : Nat) : Val := .err (1000 + status)
+
+/-- janet_proc_wait_cb: `if (can_resume(fiber) && fiber->sched_id == sched_id) { if (status != 0 && ERROR_NONZERO) janet_cancel(..)
+    else janet_schedule(..) }` — one guard flag per branch, so that a restructured guard is followed faithfully -/
 def procExit (cfg : Cfg) (w : World) (k status : Nat) : World :=
   match w.procs k with
   | none => w
   | some (f, g) =>
       let w1 := { w with procs := set w.procs k none }
-      if !(w.fibers f).dead && (!cfg.procCheck || live w f g) then schedule cfg w1 f (.int status) false g w.now (.proc k) else w1
+      if !(w.fibers f).dead then
+        if status != 0 && w.procX k then
+          (if !cfg.procErrCheck || live w f g then schedule cfg w1 f (procErrVal status) true g w.now (.proc k) (w.procEpoch k) else w1)
+        else
+          (if !cfg.procCheck || live w f g then schedule cfg w1 f (.int status) false g w.now (.proc k) (w.procEpoch k) else w1)
+      else w1
 
 /-- run phase of janet_loop1 for one task: clear flags, stale filter, janet_fiber_did_resume, log. -/
 def runTask (cfg : Cfg) (w : World) : World :=
@@ -277,8 +303,14 @@ def runTask (cfg : Cfg) (w : World) : World :=
       let w1 := { w with queue := q, fibers := set w.fibers t.fiber { fb with canceled := false } }
       if cfg.runFilter && t.expected != fb.schedId then w1
       else
-        let w2 := if cfg.didResumeDetaches then asyncEnd w1 t.fiber else w1
-        { w2 with log := { tick := w.now, fiber := t.fiber, schedIdAtRun := fb.schedId, task := t } :: w2.log }
+        -- the task is executed: `task.fiber->sched_id++` (everything registered before this resume goes stale), ghost epoch + 1
+        let fb1 : Fiber := { fb with canceled := false, epoch := fb.epoch + 1,
+                                     schedId := (if cfg.resumeBumps then fb.schedId + 1 else fb.schedId) }
+        let w1 := { w with queue := q, fibers := set w.fibers t.fiber fb1 }
+        -- janet_continue_no_check: janet_fiber_did_resume(fiber) at the top; if it came only after the `if (fiber->child)` block
+        -- it would be skipped whenever the child chain suspends again instead of returning into this fiber
+        let w2 := if cfg.didResumeDetaches && (cfg.didResumeFirst || fb.depth == 0) then asyncEnd w1 t.fiber else w1
+        { w2 with log := { tick := w.now, fiber := t.fiber, schedIdAtRun := fb.schedId, task := t, epochAtRun := fb.epoch } :: w2.log }
 
 /-- Everything that can happen: actions of (any) fiber, of the kernel, of the clock, and the phases of the loop. -/
 inductive Op where
@@ -297,18 +329,21 @@ inductive Op where
   | streamEvent (s : Nat) (isRead : Bool) (v : Val) (isErr : Bool)
   | procWait (f k : Nat)
   | procExit (k status : Nat)
+  | procFlag (k : Nat) (x : Bool)
+  | childEnter (f : Nat)
+  | childLeave (f : Nat)
   | advance (dt : Nat)
   | timers
   | run
   deriving Repr
 
 def step (cfg : Cfg) (w : World) : Op → World
-  | .spawn f => schedule cfg w f .nil false (w.fibers f).schedId w.now .spawn
+  | .spawn f => schedule cfg w f .nil false (w.fibers f).schedId w.now .spawn (w.fibers f).epoch
   | .give f c x ch => if (w.chans c).closed then w else (chanPush cfg w f c x ch).1
   | .take f c ch =>
-      if (w.chans c).closed then (if ch then w else schedule cfg w f .nil false (w.fibers f).schedId w.now .self)
+      if (w.chans c).closed then (if ch then w else schedule cfg w f .nil false (w.fibers f).schedId w.now .self (w.fibers f).epoch)
       else match chanPop cfg w f c ch with
-        | (w1, some it) => if ch then w1 else schedule cfg w1 f it false (w1.fibers f).schedId w.now .self
+        | (w1, some it) => if ch then w1 else schedule cfg w1 f it false (w1.fibers f).schedId w.now .self (w1.fibers f).epoch
         | (w1, none) => w1
   | .close c => chanClose cfg w c
   | .cancel f v => cancel cfg w f v
@@ -324,6 +359,13 @@ def step (cfg : Cfg) (w : World) : Op → World
   | .streamEvent s r v e => streamEvent cfg w s r v e
   | .procWait f k => procWait w f k
   | .procExit k st => procExit cfg w k st
+  | .procFlag k x => { w with procX := set w.procX k x }
+  -- the root fiber `f` starts / finishes a child fiber that encloses several of its waits
+  | .childEnter f => { w with fibers := set w.fibers f { w.fibers f with depth := (w.fibers f).depth + 1 } }
+  | .childLeave f =>
+      let w1 := { w with fibers := set w.fibers f { w.fibers f with depth := (w.fibers f).depth - 1 } }
+      -- control is back in the root fiber's own frame: a did_resume placed after the child block runs now
+      if (w.fibers f).depth - 1 == 0 && cfg.didResumeDetaches && !cfg.didResumeFirst then asyncEnd w1 f else w1
   | .advance dt => { w with now := w.now + dt }
   | .timers => timerPhase cfg w (w.timers.length + 1)
   | .run => runTask cfg w
